@@ -1739,7 +1739,10 @@ def lt(left: Any, right: Any) -> bool:
 
   # Most symbolic nodes are leaf, which are primitive types, therefore
   # we detect such types to make `lt` to run faster.
-  if isinstance(left, (int, float, bool, str)):
+  if left is None or isinstance(left, utils.MissingValue):
+    # None and MISSING_VALUE are only equal to themselves.
+    return False
+  elif isinstance(left, (int, float, bool, str)):
     return left < right
   elif isinstance(left, list):
     min_len = min(len(left), len(right))
